@@ -175,23 +175,41 @@ func (in *Interp) tryMergeIf(g *Goroutine, fr *Frame, x *ssa.If, c *Term) (merge
 	if in.mergeDepth > 6 {
 		return false
 	}
+	replayedMS := false
 	if in.mergeDepth == 0 {
-		if idx := len(in.trace); idx < len(in.prefix) && in.prefix[idx].Kind == "mf" {
-			in.trace = append(in.trace, in.prefix[idx])
-			return false
+		if idx := len(in.trace); idx < len(in.prefix) {
+			switch in.prefix[idx].Kind {
+			case "mf":
+				in.trace = append(in.trace, in.prefix[idx])
+				return false
+			case "ms":
+				replayedMS = true
+			case "mn":
+				in.trace = append(in.trace, in.prefix[idx])
+				return false
+			default:
+				in.inconclusive(fmt.Sprintf("nondeterministic replay at decision %d: symbolic If but recorded %s", idx, in.prefix[idx].Kind))
+			}
 		}
 	}
+	_ = replayedMS
 	fn := fr.fn
 	ip := ipdoms(fn)[fr.block.Index]
 	var join *ssa.BasicBlock
 	if ip >= 0 {
 		join = fn.Blocks[ip]
 	} else if !scalarResults(fn) || len(fr.defers) > 0 || len(fn.FreeVars) > 0 {
+		if in.mergeDepth == 0 {
+			in.trace = append(in.trace, Decision{Kind: "mn", Forced: true, N: 1})
+		}
 		return false
 	}
 	budget := 400
 	seen := map[*ssa.BasicBlock]bool{}
 	if !regionOK(fn, fr.block.Succs[0], join, seen, &budget) || !regionOK(fn, fr.block.Succs[1], join, seen, &budget) {
+		if in.mergeDepth == 0 {
+			in.trace = append(in.trace, Decision{Kind: "mn", Forced: true, N: 1})
+		}
 		return false
 	}
 	// save state for rollback
@@ -347,6 +365,9 @@ func (in *Interp) tryMergeIf(g *Goroutine, fr *Frame, x *ssa.If, c *Term) (merge
 			in.storeLeaf(u.c, u.v)
 		}
 		in.merges++
+		if in.mergeDepth == 1 {
+			in.trace = append(in.trace, Decision{Kind: "ms", Forced: true, N: 1})
+		}
 		in.mergeDepth--
 		in.doReturn(g, fr, rv)
 		in.mergeDepth++
@@ -391,6 +412,9 @@ func (in *Interp) tryMergeIf(g *Goroutine, fr *Frame, x *ssa.If, c *Term) (merge
 	}
 	// fr is now positioned at join after phis (from side b)
 	in.merges++
+	if in.mergeDepth == 1 {
+		in.trace = append(in.trace, Decision{Kind: "ms", Forced: true, N: 1})
+	}
 	return true
 }
 
